@@ -1359,3 +1359,7 @@ Example gx_not_trivial :
   cnt_fin 40 (RM.evs g) = 1 /\ cnt_fin 24 (RM.evs g) = 0 /\
   In (RM.EvReclaim 8) (RM.evs g) /\ In (RM.EvReclaim 16) (RM.evs g) /\ In (RM.EvRem 16) (RM.evs g).
 Proof. vm_compute. repeat split; tauto. Qed.
+
+Definition gx_owned : N := 16%N.
+Example gx_owned_once : cnt_fin gx_owned (RM.evs (RP.Grun gx_hash gx_d true true gx_ops RM.gc_init)) = 1.
+Proof. exact (proj1 (proj2 gx_not_trivial)). Qed.
